@@ -210,7 +210,7 @@ claim("C13", "proof",
 HOOK_COMMITS.append("a30cf9a")
 
 claim("C11", "proof",
-      "Coq theorems over the task-pool model shared by the three worker loops (octree build, index assignment, dual walk): "
+      "Translator tie: the phase skeleton of Mesh::render (per algorithm: build, check after build, index assignment, dual walk, final check, return; every `cancel` test and every `return` of the function accounted for) is re-read from mesh.cpp on every run (Gen/RenderSkeleton_gen.v) and, interpreted on a run, proved to be the model's repaired render, hence all-or-nothing (C11_render_skeleton_all_or_nothing; without the final check - the code before 7279a79 - a partial mesh is returned).  Coq theorems over the task-pool model shared by the three worker loops (octree build, index assignment, dual walk): "
       "every processing order any schedule of any number of workers can produce visits each cell once, parents first; while "
       "a cell is unprocessed a task is available (no deadlock); at most |cells| task steps, every run can be completed; the "
       "done flag is raised exactly when every cell has been processed (never early, always at the end); once cancel or done is "
